@@ -130,17 +130,23 @@ func judgeOutside(pat *ref.Pattern, src string, run engineRun, added []ref.Impor
 	// go/printer strips some redundant parentheses (parameter types, control clauses, ((x)));
 	// formatting the input with the same printer makes both sides comparable exactly.
 	var strictIn, strictOut *ref.File
-	if fsrc, ferr := format.Source([]byte(src)); ferr == nil {
+	if fsrc, ferr := format.Source([]byte(src)); ferr == nil && run.Out != src { // an unmatched file is returned byte for byte, not re-printed
 		if a, _, _, e1 := ref.ParseFile(fsrc, false); e1 == nil {
 			if b, _, _, e2 := ref.ParseFile([]byte(run.Out), false); e2 == nil && len(a.Decls) == len(in.Decls) && len(b.Decls) == len(in.Decls) {
 				strictIn, strictOut = a, b
 			}
 		}
 	}
+	unrepresentable := 0
+	defer func() {
+		if unrepresentable > 0 && class == "" && inconcl == "" {
+			inconcl = "go/printer cannot represent the expected rewrite of a declaration"
+		}
+	}()
 	for i, d := range in.Decls {
 		rw := ref.NewRewriter(pat, false)
 		exp := rw.Rewrite(d)
-		if rw.St.Unbound || rw.M.Steps > maxRefSteps {
+		if rw.St.Unbound || rw.GaveUp() {
 			return "", "", 0, 0, "reference gave up"
 		}
 		touched := rw.St.Sites+rw.St.Nested+rw.St.Later+rw.St.Misfit > 0
@@ -159,6 +165,10 @@ func judgeOutside(pat *ref.Pattern, src string, run engineRun, added []ref.Impor
 			continue
 		}
 		if !ref.Matches(out.Decls[i], ref.StripParens(exp)) {
+			if !ref.PrinterLosesParens(exp) && !printerRepresents(exp) {
+				unrepresentable++
+				continue
+			}
 			return "changed-outside-fragment", fmt.Sprintf("declaration %d (%d sites): %s", i, rw.St.Sites, ref.FirstDiff(out.Decls[i], ref.StripParens(exp), "")), sitedDecls, cleanDecls, ""
 		}
 	}
